@@ -96,6 +96,15 @@ def rules(ctx, tier):
     publish_provenance(ctx, r)
     r.need(4, "rename operands and the two arguments of the publishing call")
     out.append(r.finish())
+    from . import c18
+    from .base import share_rule
+    x = share_rule(ctx, tier, c18, "R1", "R5",
+                   "the file that is published holds exactly the bytes that were hashed, in that order: every write call "
+                   "feeds the hasher and the one buffered writer the same data, once (shared with C18-R1)",
+                   "large chunks are hashed in order but written around the buffer: the file moved to path(hash) does not "
+                   "hash to its name")
+    if x is not None:
+        out.append(x)
     return out
 
 
